@@ -234,19 +234,14 @@ func runC45(c *core.Check) {
 	}
 }
 
-// firstDeferIsDone: the literal's body registers `defer wg.Done()` before any statement that can
-// return or block (only other defers may precede it).
+// firstDeferIsDone: the literal's first statement is `defer wg.Done()`, so Done runs last, after every
+// other deferred teardown step of the handler.
 func firstDeferIsDone(lit *ast.FuncLit, isWG func(*ast.CallExpr, string) bool) bool {
-	for _, st := range lit.Body.List {
-		d, ok := st.(*ast.DeferStmt)
-		if !ok {
-			return false
-		}
-		if isWG(d.Call, "Done") {
-			return true
-		}
+	if len(lit.Body.List) == 0 {
+		return false
 	}
-	return false
+	d, ok := lit.Body.List[0].(*ast.DeferStmt)
+	return ok && isWG(d.Call, "Done")
 }
 
 // ---------------------------------------------------------------------------------------------
